@@ -366,7 +366,10 @@ fn caller_body(spec: HistSpec, pl: Arc<Plan>, dir: String, acks: Arc<AckLog>, ou
                             let hist_ops: Vec<Op> = spec.hist[..i].iter().filter_map(|o| if let SOp::W(w) = o { Some(w.clone()) } else { None }).collect();
                             let f3 = crate::seqx::reappended_below_highwater(&hist_ops);
                             let at = if err.is_some() { want.get(got.len()).map(|e| e.0) } else { None };
+                            let panicked = err.as_ref().map(|e| e.contains("PANIC")).unwrap_or(false);
                             let key = match at {
+                                // (a panic is never the recorded finding: F3 is an error result)
+                                _ if panicked => "snapshot-iteration-panics",
                                 Some(id) if f3.contains(&id) => "F3:read-error-on-entry-reappended-below-truncated-id",
                                 _ => "snapshot-iteration-fails-or-differs",
                             };
@@ -510,6 +513,8 @@ fn caller_body(spec: HistSpec, pl: Arc<Plan>, dir: String, acks: Arc<AckLog>, ou
                             })
                             .flatten();
                             let key = match at {
+                                // (a panic is never the recorded finding: F3 is an error result)
+                                _ if b.contains("PANIC") || b.contains("panicked") => "read-panics",
                                 Some(id) if f3.contains(&id) && actual == expected && Some(id) <= actual => {
                                     "F3:read-error-on-entry-reappended-below-truncated-id"
                                 }
@@ -1338,7 +1343,9 @@ fn judge_image(
                         // classified by the mechanism (not by the wording of the error): the
                         // read-back after the append failed and the appended id is at or below
                         // the boundary a correct recovery installs
-                        let key = if e.starts_with("after recovery + writes") && Some(appended) <= bp {
+                        let key = if e.contains("PANIC") {
+                            "recovered-store-read-panics"
+                        } else if e.starts_with("after recovery + writes") && Some(appended) <= bp {
                             "F3:read-error-on-entry-reappended-below-truncated-id"
                         } else {
                             "recovered-store-not-usable-under-cache-pressure"
